@@ -124,3 +124,46 @@ Proof.
     exists p. split; [|auto]. exact (proj1 (regd_facts k pvs) _ Hp).
 Qed.
 Print Assumptions bw_matches_sound_for_every_built_automaton.
+
+(* ---- C06 AS ONE STATEMENT PER VARIANT (Proofs/MatchSound.v) ------------------------------------------
+   On EVERY built automaton -- any match kind, any num_free_blocks, any value type with a boolean
+   equality -- EVERY match (s, e, v) returned by ANY of the four search methods satisfies
+   occ_at pvs h s e v:  s < e <= |h|  and  (h[s..e], v) is one of the pattern/value pairs given to
+   the builder.  (A search method of the other kind panics and returns no match at all.)  With
+   value_unique, v is THE value registered for h[s..e]. *)
+From DV Require Import Proofs.MatchSound Theory.Utf8Spec.
+
+Theorem bw_every_match_of_every_search_is_a_registered_occurrence :
+  forall (V : Type) (veqb : V -> V -> bool), (forall a b, veqb a b = true <-> a = b) ->
+  forall k nfb (pvs : list (list N * V)) (A : bw_automaton V),
+    (forall p v, In (p, v) pvs -> Forall (fun b => b < 256) p) -> 4 * total_len V pvs <= U32_MAX - 1 ->
+    bw_build_with_values V k nfb pvs = Ok A ->
+  forall h, Forall (fun b => b < 256) h ->
+  forall ms, bw_find_iter V A h = Ok ms \/ bw_find_overlapping_iter V A h = Ok ms
+             \/ bw_find_overlapping_no_suffix_iter V A h = Ok ms \/ bw_leftmost_find_iter V A h = Ok ms ->
+  forall s e v, In (s, e, v) ms -> occ_at V pvs h s e v.
+Proof. exact bw_every_match_sound. Qed.
+Print Assumptions bw_every_match_of_every_search_is_a_registered_occurrence.
+
+(* character-wise, on the UTF-8 encoding of any text: byte positions, encoded patterns *)
+Theorem cw_every_match_of_every_search_is_a_registered_occurrence :
+  forall (V : Type) (veqb : V -> V -> bool), (forall a b, veqb a b = true <-> a = b) ->
+  forall k nfb (pvs : list (list N * V)) (A : cw_automaton V),
+    (forall p v, In (p, v) pvs -> Forall scalar p) -> 4 * total_len V pvs <= U32_MAX - 1 ->
+    cw_build_with_values V k nfb pvs = Ok A ->
+  forall cs, Forall scalar cs ->
+  let h := encode_utf8 cs in
+  forall ms, cw_find_iter V A h = Ok ms \/ cw_find_overlapping_iter V A h = Ok ms
+             \/ cw_find_overlapping_no_suffix_iter V A h = Ok ms \/ cw_leftmost_find_iter V A h = Ok ms ->
+  forall s e v, In (s, e, v) ms -> occ_at V (bpvs V pvs) h s e v.
+Proof. exact cw_every_match_sound. Qed.
+Print Assumptions cw_every_match_of_every_search_is_a_registered_occurrence.
+
+(* built from bare patterns: the value attached to a pattern is its position in the input sequence,
+   converted with V::try_from *)
+Theorem bare_pattern_values_are_input_positions :
+  forall (V : Type) (conv : nat -> option V) (ps : list (list N)) (pvs : list (list N * V)),
+    enumerate_conv V conv 0 ps = Some pvs ->
+    forall p v, In (p, v) pvs -> exists j, nth_error ps j = Some p /\ conv j = Some v.
+Proof. intros V conv ps pvs H p v Hin. exact (enumerate_conv_positions V conv ps 0%nat pvs H p v Hin). Qed.
+Print Assumptions bare_pattern_values_are_input_positions.
